@@ -29,16 +29,29 @@ fn keepalive() -> BoxedStrategy<u16> {
 }
 
 pub fn strategy() -> BoxedStrategy<Case> {
-    (keepalive(), prop_oneof![3 => Just(None), 2 => keepalive().prop_map(Some)], 0u8..6, prop::collection::vec((0u8..10, any::<u16>()), 1..4), prop::collection::vec((0u8..8, 0u8..6, any::<u16>()), 2..9), any::<u8>())
-        .prop_map(|(k, s, jsel, pings, segs, hsel)| {
-            let e = s.unwrap_or(k) as u64;
+    let prelude = prop_oneof![
+        3 => Just(None),
+        2 => (prop_oneof![2 => Just(None), 3 => keepalive().prop_map(Some)], 0u8..4, any::<u16>()).prop_map(Some),
+    ];
+    (keepalive(), prop_oneof![3 => Just(None), 2 => keepalive().prop_map(Some)], 0u8..6, prop::collection::vec((0u8..10, any::<u16>()), 1..4), prop::collection::vec((0u8..8, 0u8..6, any::<u16>()), 2..9), any::<u8>(), prelude)
+        .prop_map(|(k, s, jsel, pings, segs, hsel, prelude)| {
+            // executor latency stays below the client's own lead time and waits are sized in units
+            // of the keep-alive. Without an override on the judged connection the client may go by
+            // the configured value or by the Server Keep Alive it learnt on the earlier connection
+            // (it then advertises that one in CONNECT): the smaller of the two sizes everything.
+            let e_cfg = s.unwrap_or(k) as u64;
+            let e = match (s, &prelude) {
+                (None, Some((Some(s0), _, _))) if *s0 > 0 => if e_cfg == 0 { *s0 as u64 } else { e_cfg.min(*s0 as u64) },
+                _ => e_cfg,
+            };
             let e_us = e * TICKS_PER_S;
             let lead = ROUND_TRIP.min(e_us / 2);
             let interval = e_us.saturating_sub(lead);
+            let lead_min = lead;
             let jitter = if e == 0 {
                 0
             } else {
-                let maxj = lead.saturating_sub(1).min(2 * TICKS_PER_S);
+                let maxj = lead_min.saturating_sub(1).min(2 * TICKS_PER_S);
                 match jsel {
                     0 | 1 => 0,
                     2 => 1.min(maxj),
@@ -90,15 +103,34 @@ pub fn strategy() -> BoxedStrategy<Case> {
                 _ => 12_000,
             };
             steps.push(Step::PollFor { ms: tail.min(4_000_000) as u32 });
-            Case {
-                cfg: Cfg { keepalive: k, jitter_us: jitter, ping_delays_us: ping_delays, ..Cfg::default() },
-                broker: BrokerMode::AutoAck,
-                conns: vec![ConnScript {
-                    connect: ConnectSpec { props: ConnackProps { server_keepalive: s, ..ConnackProps::default() }, ..ConnectSpec::default() },
-                    steps,
-                    end: EndHow::Drop,
-                }],
+            let mut conns = Vec::new();
+            if let Some((s0, ending, r)) = prelude {
+                // an earlier connection of the same session with its own (or no) Server Keep Alive:
+                // nothing of its keep-alive state may leak into the connection that is judged
+                let e0 = s0.unwrap_or(k) as u64 * TICKS_PER_S;
+                let interval0 = e0.saturating_sub(ROUND_TRIP.min(e0 / 2)) / TICKS_PER_MS;
+                let mut st = vec![Step::PollFor { ms: ((r as u64 * 13) % (2 * interval0 + 2_000)).min(60_000) as u32 }];
+                let mut io = IoCfg::default();
+                let mut end = EndHow::Drop;
+                match ending {
+                    0 => {}
+                    1 => end = EndHow::Forget,
+                    2 => st.push(Step::Publish(PubSpec::simple(1, 2, 2, r as u8))),
+                    _ => {
+                        // the connection is abandoned while a PINGREQ is queued but not yet written
+                        io.pend_first = true;
+                        st.push(Step::Advance { ms: (interval0 + 1).min(4_000_000) as u32 });
+                        st.push(Step::Poll { cancel: Some(0) });
+                    }
+                }
+                conns.push(ConnScript { connect: ConnectSpec { props: ConnackProps { server_keepalive: s0, ..ConnackProps::default() }, io, ..ConnectSpec::default() }, steps: st, end });
             }
+            conns.push(ConnScript {
+                connect: ConnectSpec { props: ConnackProps { server_keepalive: s, ..ConnackProps::default() }, ..ConnectSpec::default() },
+                steps,
+                end: EndHow::Drop,
+            });
+            Case { cfg: Cfg { keepalive: k, jitter_us: jitter, ping_delays_us: ping_delays, ..Cfg::default() }, broker: BrokerMode::AutoAck, conns }
         })
         .boxed()
 }
@@ -127,12 +159,14 @@ pub fn eval(case: &Case) -> Out {
     }
     let mut out = Out { violations: vec![], pings: 0, late_or_absent: false, coincidence: false, watchdog: trace.watchdog, busy_repolls: trace.ops.iter().map(|o| o.busy_repolls as u64).sum() };
     // negotiated keep-alive: what CONNECT asked, overridden by the CONNACK
-    let asked = view.out.iter().find_map(|p| if let Packet::Connect(c) = &p.packet { Some(c.keep_alive) } else { None });
-    let server = trace.inbound.iter().find_map(|p| match &p.packet {
+    // the connection that is judged is the last one (an optional earlier one only sets the scene)
+    let jt = case.conns.len() - 1;
+    let asked = view.out.iter().filter(|p| p.tr == jt).find_map(|p| if let Packet::Connect(c) = &p.packet { Some(c.keep_alive) } else { None });
+    let server = trace.inbound.iter().filter(|p| p.tr == jt).find_map(|p| match &p.packet {
         Some(Packet::ConnAck { props, .. }) => props.iter().find_map(|q| if let Prop::ServerKeepAlive(s) = q { Some(*s) } else { None }),
         _ => None,
     });
-    let (Some(asked), true) = (asked, trace.conns.first().is_some_and(|c| c.1.is_ok())) else {
+    let (Some(asked), true) = (asked, trace.conns.len() == case.conns.len() && trace.conns.iter().all(|c| c.1.is_ok())) else {
         out.violations = v;
         return out;
     };
@@ -143,6 +177,8 @@ pub fn eval(case: &Case) -> Out {
     let mut pingresp_read: Vec<u64> = Vec::new();
     for item in &view.tl {
         match item {
+            TL::InDone(i, _) if trace.inbound[*i].tr != jt => {}
+            TL::OutDone(p) if view.out[*p].tr != jt => {}
             TL::InDone(i, t) => match &trace.inbound[*i].packet {
                 Some(Packet::ConnAck { .. }) => t0 = *t,
                 Some(Packet::PingResp) => pingresp_read.push(*t),
@@ -157,12 +193,12 @@ pub fn eval(case: &Case) -> Out {
             _ => {}
         }
     }
-    let death = trace.ops.iter().find(|o| matches!(o.res, OpRes::Err(ErrKind::Disconnected | ErrKind::Transport | ErrKind::InvalidPacket))).map(|o| (o.t.1, o.res.clone()));
-    let t_end = trace.ops.last().map(|o| o.t.1).unwrap_or(t0);
+    let death = trace.ops.iter().filter(|o| o.tr == jt).find(|o| matches!(o.res, OpRes::Err(ErrKind::Disconnected | ErrKind::Transport | ErrKind::InvalidPacket))).map(|o| (o.t.1, o.res.clone()));
+    let t_end = trace.ops.iter().filter(|o| o.tr == jt).last().map(|o| o.t.1).unwrap_or(t0);
     let alive_until = death.as_ref().map(|d| d.0).unwrap_or(t_end);
     out.pings = sent.iter().filter(|s| s.1).count();
     // PINGRESP arrival (readable) times in PINGREQ order
-    let arrivals: Vec<u64> = trace.inbound.iter().filter(|p| matches!(p.packet, Some(Packet::PingResp))).map(|p| p.at).collect();
+    let arrivals: Vec<u64> = trace.inbound.iter().filter(|p| p.tr == jt && matches!(p.packet, Some(Packet::PingResp))).map(|p| p.at).collect();
     // ---- R2: keep-alive 0 sends no pings
     if e_us == 0 {
         if out.pings > 0 {
@@ -262,7 +298,7 @@ pub fn eval(case: &Case) -> Out {
         }
     }
     // deadline coincidences produced by the generator
-    for o in &trace.ops {
+    for o in trace.ops.iter().filter(|o| o.tr == jt) {
         if o.kind == OpKind::Publish && sent.iter().any(|s| s.1 && s.0 == o.t.0) {
             out.coincidence = true;
         }
@@ -288,11 +324,15 @@ pub fn run(ctx: &Ctx) -> i32 {
         if out.busy_repolls > 0 {
             classes.push("busy-repoll-observed");
         }
-        if case.cfg.keepalive == 0 || case.conns[0].connect.props.server_keepalive == Some(0) {
+        let judged = case.conns.last().unwrap();
+        if judged.connect.props.server_keepalive == Some(0) || (case.cfg.keepalive == 0 && judged.connect.props.server_keepalive.is_none()) {
             classes.push("keepalive-zero");
         }
-        if case.conns[0].connect.props.server_keepalive.is_some() {
+        if judged.connect.props.server_keepalive.is_some() {
             classes.push("server-keepalive-override");
+        }
+        if case.conns.len() > 1 {
+            classes.push("earlier-connection-with-other-keepalive-state");
         }
         Eval { nontrivial: out.pings > 0 && (out.late_or_absent || out.coincidence), violations: out.violations, classes, watchdog: out.watchdog }
     });
@@ -301,7 +341,7 @@ pub fn run(ctx: &Ctx) -> i32 {
         agg,
         Report {
             level: "exploration",
-            rule: "keep-alive from {0,1,2,3,4,5,9,10,11,12,60,65535} or random, optional Server Keep Alive override, executor latency from {0, 1 us, 1 ms, lead/2, lead-1 us}; the application alternates publishes / scheduled inbound deliveries with poll() waits whose lengths land before, exactly on and after the PINGREQ deadline, then waits for >= 20 keep-alive periods; PINGRESP delay per PINGREQ from {0, 1 ms, keep-alive/2, keep-alive+1 ms, bound-1 us, bound+1 us, bound+3 s, random, never}. Virtual time jumps to the client's own timer deadlines. Oracle over virtual timestamps: gap between consecutive completed client packets (from CONNACK) <= effective keep-alive; keep-alive 0 => no PINGREQ; unanswered PINGREQ => Disconnected at completion+5 s (not earlier, not later than that plus injected latency); PINGRESP readable before the bound => no disconnect. Non-trivial = at least one PINGREQ and (a late/absent PINGRESP or a deadline coincidence); distinct = distinct case value.".into(),
+            rule: "keep-alive from {0,1,2,3,4,5,9,10,11,12,60,65535} or random, optional Server Keep Alive override, executor latency from {0, 1 us, 1 ms, lead/2, lead-1 us}; the application alternates publishes / scheduled inbound deliveries with poll() waits whose lengths land before, exactly on and after the PINGREQ deadline, then waits for >= 20 keep-alive periods; in 40 % of the cases an earlier connection of the same session comes first, with its own or no Server Keep Alive, ended by drop / leak / with a publish in flight / while a PINGREQ is queued but unwritten, and the judged connection resumes the session; PINGRESP delay per PINGREQ from {0, 1 ms, keep-alive/2, keep-alive+1 ms, bound-1 us, bound+1 us, bound+3 s, random, never}. Virtual time jumps to the client's own timer deadlines. Oracle over virtual timestamps: gap between consecutive completed client packets (from CONNACK) <= effective keep-alive; keep-alive 0 => no PINGREQ; unanswered PINGREQ => Disconnected at completion+5 s (not earlier, not later than that plus injected latency); PINGRESP readable before the bound => no disconnect. Non-trivial = at least one PINGREQ and (a late/absent PINGRESP or a deadline coincidence); distinct = distinct case value.".into(),
             assumptions: vec![
                 "5 s round-trip bound as documented (README, session/state.rs)".into(),
                 "a PINGRESP that becomes readable exactly at the bound is unspecified".into(),
